@@ -72,6 +72,9 @@ interleaving, preserves `SizeOK L`; it holds in the freshly opened database (`C1
 **Not covered:** `Merge`.  Its output directory is written through the same `appendLogRecord`
 (`Engine.mergeRec` calls `Engine.appendLog` on the temporary handle), so `appendLog_size` is the
 step lemma for it, but the merge loop itself is not part of the operation type here.
+(Closed in `Properties/C17History.lean`: `C17_history_limit` carries `SizeOK` through whole histories with
+`Merge`, adoption, restarts and `Backup`, and covers the rewritten files of the merge directory;
+`C17_history_counters` / `C17_history_merge_admitted` do the same for the `Stat` half.)
 
 "that alone exceeds the limit": in the model (as in Go) a single-record file arises whenever the
 *estimate* of the record (plus the 70 reserved bytes, for a batch) does not fit the configured size;
